@@ -674,13 +674,15 @@ func main() {
 		sort.Strings(ids)
 		for _, id := range ids {
 			p := props[id]
-			k := fmt.Sprintf("%s/%v", p.World, p.Race)
-			if seen[k] {
-				continue
+			for _, wn := range append([]string{p.World}, p.Also...) {
+				k := fmt.Sprintf("%s/%v", wn, p.Race)
+				if seen[k] {
+					continue
+				}
+				seen[k] = true
+				b := buildWorld(wn, p.Race)
+				os.RemoveAll(b.scratch)
 			}
-			seen[k] = true
-			b := buildWorld(p.World, p.Race)
-			os.RemoveAll(b.scratch)
 		}
 	default:
 		fmt.Fprintln(os.Stderr, "unknown command", os.Args[1])
